@@ -759,9 +759,8 @@ def evp_bytes_to_key(passphrase, salt, key_len, hash_name='md5'):
 
 _PEM_BLOCK = re.compile(
     r'-----BEGIN ([A-Z0-9][A-Z0-9 ]*[A-Z0-9]|[A-Z0-9])-----[ \t]*\r?\n'
-    r'(.*?)'
-    r'-----END ([A-Z0-9][A-Z0-9 ]*[A-Z0-9]|[A-Z0-9])-----[ \t]*(?:\r?\n|$)',
-    re.DOTALL)
+    r'((?:[^\n]*\n)*?)'      # complete lines only: END starts its own line
+    r'-----END ([A-Z0-9][A-Z0-9 ]*[A-Z0-9]|[A-Z0-9])-----[ \t]*(?:\r?\n|$)')
 _B64_LINE = re.compile(r'^[A-Za-z0-9+/]*={0,2}$')
 
 
@@ -2614,6 +2613,9 @@ def self_test(verbose=False):
     assert _rejects(pem_decode, pem + "\njunk")
     assert _rejects(pem_decode, pem.replace('MF', 'M!', 1))
     assert _rejects(pem_decode, pem.replace('-----BEGIN', '----BEGIN'))
+    assert _rejects(pem_decode, pem.replace('\n-----END', '-----END'))
+    assert _rejects(pem_decode, pem.replace('KEY-----\n', 'KEY-----', 1))
+    assert _rejects(pem_decode, ' ' + pem.replace('\n', '\n ', 1))
     assert _rejects(pem_decode, pem + "\n" + pem)
     assert len(pem_decode_all(pem + "\n" + pem)) == 2
     assert _rejects(pem_decode, "-----BEGIN X-----\nProc-Type: 4,ENCRYPTED\n"
